@@ -198,11 +198,10 @@ Proof.
 Qed.
 
 (* ---------------------------------------------------------------- order independence *)
-Definition same_pname (files : list problemv) : Prop :=
-  forall f g, In f files -> In g files -> p_name f = p_name g.
-
+(* equal in what the property speaks about: objects and fluent values as maps, facts, goals and numeric
+   goals as sets *)
 Definition problem_equiv (a b : problemv) : Prop :=
-  p_name a = p_name b /\ map_equiv (p_objs a) (p_objs b) /\ map_equiv (p_fluents a) (p_fluents b) /\
+  map_equiv (p_objs a) (p_objs b) /\ map_equiv (p_fluents a) (p_fluents b) /\
   facts_equiv (p_facts a) (p_facts b) /\ set_equiv (p_goals a) (p_goals b) /\
   set_equiv (p_ngoals a) (p_ngoals b).
 
@@ -222,23 +221,13 @@ Proof.
 Qed.
 
 Lemma C17_order_problems_lemma : forall files files',
-  problem_files_ok files -> same_pname files -> Permutation files files' ->
+  problem_files_ok files -> Permutation files files' ->
   problem_equiv (combine_problems files) (combine_problems files').
 Proof.
-  intros files files' Hok Hname P.
+  intros files files' Hok P.
   pose proof (C17_union_problems_lemma files Hok) as (Uo & Uf & (_ & _ & Ux) & Ug & Un).
   pose proof (C17_union_problems_lemma files' (problem_files_ok_perm _ _ P Hok)) as (Uo' & Uf' & (_ & _ & Ux') & Ug' & Un').
-  unfold problem_equiv. split; [|split; [|split; [|split; [|split]]]].
-  - unfold combine_problems. rewrite !fold_merge_problem_name. destruct files as [|f files].
-    + apply Permutation_nil in P. now subst.
-    + destruct files' as [|f' files']; [apply Permutation_sym, Permutation_nil in P; discriminate|].
-      assert (H1 : In (last (map p_name (f :: files)) (p_name new_problem)) (map p_name (f :: files)))
-        by (apply last_In'; discriminate).
-      assert (H2 : In (last (map p_name (f' :: files')) (p_name new_problem)) (map p_name (f' :: files')))
-        by (apply last_In'; discriminate).
-      apply in_map_iff in H1, H2. destruct H1 as [g [E1 I1]], H2 as [g' [E2 I2]].
-      rewrite <- E1, <- E2. apply Hname; [assumption|].
-      apply (Permutation_in _ (Permutation_sym P)). assumption.
+  unfold problem_equiv. split; [|split; [|split; [|split]]].
   - apply (union_of_equiv _ _ _ _ (perm_map_In p_objs _ _ P) Uo Uo').
   - apply (union_of_equiv _ _ _ _ (perm_map_In p_fluents _ _ P) Uf Uf').
   - intros k x. rewrite Ux, Ux'. split; intros [f [Hf H]]; exists f; split; try assumption;
@@ -284,8 +273,20 @@ Proof.
     repeat (destruct Hin as [Hin|Hin]; [inversion Hin; subst; apply nodup_of_b; reflexivity|]); destruct Hin.
 Qed.
 
-Lemma ex_same_pname : same_pname [ex_pa; ex_pb].
-Proof. intros f g [H|[H|[]]] [H'|[H'|[]]]; subst; reflexivity. Qed.
+(* the name is the one of the file found last *)
+Lemma C17_pname_last_lemma : forall files,
+  p_name (combine_problems files) = last (map p_name files) "".
+Proof. intros. unfold combine_problems. now rewrite fold_merge_problem_name. Qed.
+
+(* D27: with identity-hashed expression trees (the code before the repair) a numeric goal shared by two
+   files is kept twice *)
+Lemma C17_ngoals_twice_before_repair_lemma :
+  exists files, problem_files_ok files /\ ~ NoDup (p_ngoals (combine_problems_identity files)).
+Proof.
+  exists [ex_pa; ex_pb]. split; [exact ex_problem_files_ok|].
+  intros H. vm_compute in H. inversion H as [|x l H1 H2]; subst. inversion H2 as [|y l' H3 H4]; subst.
+  apply H3. now left.
+Qed.
 
 (* the shared fact, goal and numeric goal are kept once; the private ones are all there *)
 Lemma ex_problem_shape :
